@@ -87,6 +87,30 @@ def numpy_to_blackbird(A, var_name):
     return script
 
 
+def _list_to_blackbird(values):
+    """Converts a list of values to the Blackbird list syntax ``[a, b, c]``.
+
+    The elements are formatted one by one, since the ``repr`` of the list
+    would print NumPy scalars as ``np.int64(1)`` and strings with single quotes.
+
+    Args:
+        values (list): list of numbers, booleans or strings
+
+    Returns:
+        str: the list in Blackbird syntax
+    """
+    items = []
+    for i in values:
+        if isinstance(i, str):
+            items.append('"{}"'.format(i))
+        elif isinstance(i, complex):
+            items.append("{}{}{}j".format(i.real, "+-"[int(np.signbit(i.imag))], np.abs(i.imag)))
+        else:
+            items.append("{}".format(i))
+
+    return "[{}]".format(", ".join(items))
+
+
 class BlackbirdProgram:
     """Python representation of a Blackbird program."""
 
@@ -335,7 +359,9 @@ class BlackbirdProgram:
                     # the expected syntax
                     option_strings = []
                     for k, v in data["options"].items():
-                        if not isinstance(v, str):
+                        if isinstance(v, list):
+                            option_strings.append("{}={}".format(k, _list_to_blackbird(v)))
+                        elif not isinstance(v, str):
                             option_strings.append("{}={}".format(k, v))
                         else:
                             option_strings.append('{}="{}"'.format(k, v))
@@ -372,7 +398,7 @@ class BlackbirdProgram:
             if len(op["modes"]) == 1:
                 modes = op["modes"][0]
             else:
-                modes = op["modes"]
+                modes = "[{}]".format(", ".join("{}".format(m) for m in op["modes"]))
 
             # check if the operation has any arguments
             if "args" in op:
@@ -450,6 +476,9 @@ class BlackbirdProgram:
                         kwargs.append(
                             "{}={}{}{}j".format(k, v.real, "+-"[int(np.signbit(v.imag))], np.abs(v.imag))
                         )
+
+                    elif isinstance(v, list):
+                        kwargs.append("{}={}".format(k, _list_to_blackbird(v)))
 
                     elif isinstance(v, sym.Expr):
                         # kwarg contains free parameters
